@@ -8,20 +8,26 @@ RULE = ("(a) scripted in-process runs of the real FileLogger.router() (verif ini
         "(gzip on/off, work-dir on/off, rotate-size 0/tiny, rotate-interval 0/1ns/400ms/1h, skip-empty-files, max-in-flight 0/1/2/3/5/200, "
         "7 file name formats incl. none/two <REV> and <PID>, 5 datetime formats incl. seconds granularity, sync ticker on in some runs), "
         "0-6 pre-existing files with colliding names in the output and work directories (some larger than rotate-size), 2-13 events "
-        "(messages with empty/binary/multi-line/3-6 KB/duplicate bodies, HUP, sleeps across the interval or second boundary, TERM); the observed "
-        "syscall-ordered trace of creates/writes/completed gzip members/fsyncs/closes/links/unlinks and FINs is compared with the model's trace and "
-        "judged by the property monitor; every run also yields a computeFilenameFormat case; a run is non-trivial when at least one message was "
-        "delivered; runs whose clock readings around an event straddle a rotation threshold are dropped (counted). "
+        "(messages with empty/binary/multi-line/3-6 KB/duplicate bodies, HUP, sleeps across the interval or second boundary, TERM); "
+        "failing system calls: strace makes the n-th write / fsync / close / linkat / unlinkat / openat issued by the router thread fail "
+        "(ENOSPC, EIO, EDQUOT, EFBIG, EMLINK, EPERM, EXDEV, EACCES, EBUSY, EROFS, EMFILE, ENFILE) -- a fixed script (first open, a message pending across a "
+        "rotation by size, an empty body, HUP, reopen, TERM) is run with a failure at EVERY position of its write path (each write(2) incl. gzip header / "
+        "compressed data / trailer, body and newline; each fsync of Sync and of Close; each close, link, unlink, open) in plain and gzip mode, with and "
+        "without work dir (~190 runs), and 35% of the generated runs carry a random one; the observed "
+        "syscall-ordered trace of creates/writes/completed gzip members/fsyncs/failed calls/links/unlinks and FINs is compared with the model's trace "
+        "(which must exit fatally at the failing call) and judged by the property monitor (a FIN whose line is not in fsynced, for gzip completed-member, "
+        "content is a violation -- e.g. a FIN after a failed fsync); every run also yields a computeFilenameFormat case; a run is non-trivial when at least one message was "
+        "delivered; runs whose clock readings around an event straddle a rotation threshold, or whose injected failure hit something else than a file operation of the router, are dropped (counted). "
         "(c) 40 evaluations of the real strftime() (UTC; generated formats over all 16 conversions, punctuation, lone/unknown %, a few alphanumeric literals = outside the modelled class; "
         "times 1970-2100 and boundary instants) against coq/model/Strftime.v. "
         "(b) black-box: real nsqd + real nsq_to_file binary, 60-300 messages, SIGTERM / SIGHUP+SIGTERM / SIGKILL at a generated instant, "
         "then messages the channel no longer owes (published minus a drain) must be lines of decompressible file contents and pre-existing files keep their bytes.")
 TRUSTED = [
-    "modelled, not verified: the OS file model of coq/model/FileOS.v (write = volatile, fsync = durable incl. the name, a crash keeps durable + a prefix of volatile, O_EXCL and link(2) exclusive, directory operations atomic and ordered); compress/gzip (a member is decompressible exactly when complete); go-nsq (delivery of FIN, IsStarved, Stop -> StopChan); Go select/ticker",
-    "hook /repo/apps/nsq_to_file/verif_driver.go (build tag verif): init() driver that injects scripted events into a real FileLogger's router() and records FIN/REQ through a recording MessageDelegate",
-    "strace (syscall order and arguments) and the projection harness/cmd/filedrive/strace.go (fd tracking, gzip member boundaries via compress/gzip)",
+    "modelled, not verified: the OS file model of coq/model/FileOS.v (write = volatile, fsync = durable incl. the name, a crash keeps durable + a prefix of volatile, O_EXCL and link(2) exclusive, directory operations atomic and ordered; a failed system call has no effect, a failed fsync makes nothing durable -- that a LATER successful fsync does not save the pages of a failed one (Linux) is not modelled); compress/gzip (a member is decompressible exactly when complete); go-nsq (delivery of FIN, IsStarved, Stop -> StopChan); Go select/ticker",
+    "hook /repo/apps/nsq_to_file/verif_driver.go (build tag verif): init() driver that injects scripted events into a real FileLogger's router() and records FIN/REQ through a recording MessageDelegate; the router goroutine is locked to its own OS thread and burns a fixed number of dummy calls first, so that strace's per-thread 'inject=SYSCALL:error=E:when=N' fails exactly the n-th such call of the router and nothing else",
+    "strace (syscall order and arguments, fault injection) and the projection harness/cmd/filedrive/strace.go (fd tracking, gzip member boundaries via compress/gzip; an injected failure is put in the model's terms: n-th fsync/close/link/unlink/open = the strace ordinal, a failed plain write = the current message with the bytes already written, a failed gzip-stream write = the current message's Write or the next gzipWriter.Close -- the judge accepts either explanation)",
     "coq/model/Strftime.v covers formats whose literal characters are not alphanumeric (time.Format would interpret letters/digits of the user's format as layout tokens); the run cases use the observed rendering, so the theorems hold for any rendering function",
-    "model simplifications: body and newline are one write; write/fsync/close/mkdir errors other than 'file already closed' are not modelled; <REV> assumed in the base name; one clock reading per event",
+    "model simplifications: body and newline are one write (a failure between them is a partial write of the line); mkdir/stat errors are not modelled; injected failures are single (one failing call per run) although the theorems cover every fault schedule; <REV> assumed in the base name; one clock reading per event",
 ]
 ASSUMPTIONS = [
     "fsync(2) makes the file's data and its directory entry durable; link(2)/open(O_EXCL) are exclusive (C19 'partial': OS behaviour assumed)",
@@ -29,15 +35,16 @@ ASSUMPTIONS = [
 ]
 LEVEL_TEXT = ("Machine-checked proof (Coq 8.16.1) over an executable model of apps/nsq_to_file/file_logger.go (router loop, needsRotation, updateFile with "
               "exclusive-create/append and rev bumps, Sync, Close with the link-based exclusive rename, Write, file name computation) composed with a "
-              "volatile/durable file-system model, in which every file operation and every FIN is emitted in program order: for every configuration, "
+              "volatile/durable file-system model, in which every file operation and every FIN is emitted in program order and any write, gzip-close write, "
+              "fsync, close, link, unlink or open may fail (the fault schedule is part of the configuration): for every configuration, "
               "every set of pre-existing files, every event history and every instant (prefix of the emitted trace), after a crash that loses unsynced "
               "data every finished message's body+newline is inside the durable (gzip: completed-member) content of a file; and between any two instants "
               "no file shrinks or is replaced (a work-dir name may only give way to an output-dir name holding its content), so pre-existing colliding "
-              "names survive. Tied to the code by differential correspondence on the real router(): strace-ordered file operations and FINs of scripted "
+              "names survive; after a failed system call of the write path nothing is finished any more and the logger is not running (C19_no_fin_after_failed_call). Tied to the code by differential correspondence on the real router(): strace-ordered file operations and FINs of scripted "
               "runs vs the model's trace, the property monitor evaluated on the observed trace, and black-box SIGTERM/SIGHUP/SIGKILL runs against a real nsqd.")
 LEVEL_NOTE = ("Trusted: Coq kernel + vm_compute; the hand-written model; the OS model (fsync durability, link/O_EXCL exclusivity are assumptions about the kernel, "
               "'partial'); go-nsq's FIN delivery ('partial'); strace and the trace projection; correspondence is sampled. 'Exactly one file' is proved at event "
-              "boundaries (C19_exactly_one_file; distinct message ids and file names assumed) and as 'some file' at every instant (during the link/unlink "
+              "boundaries (C19_exactly_one_file; distinct message ids and file names assumed, and no failing unlink(2) in the hand-off: otherwise the logger exits with the file under both names, C19_ex_two_names_after_failed_unlink) and as 'some file' at every instant (during the link/unlink "
               "hand-off two names hold the content). A second observation: updateFile leaks the descriptor of an existing file it skips as oversized. Observation reported, "
               "not a violation: after a successful work-dir move Close leaves f.out set; the next write exits fatally, the message stays owed (modelled, Example C19_ex_stale_handle, and seen in runs).")
 TECHNIQUE = "Coq invariant proof over all event histories and all crash instants + syscall-level differential correspondence (strace) + black-box kill runs"
